@@ -31,6 +31,9 @@ CLAIMED['C06'] = dict(design='5 (C06), 2', note='trusted: MIRSE MIR semantics + 
     'absence of unseeded draws; limits/prefetch symbolic (small regime) or extreme 64-bit values (wide regime); termination = bounded '
     'next() calls + step budget; multiplication overflow repaired by a fix commit (known_findings.json). The Kani second opinion '
     'planned in DESIGN.md is not built')
+CLAIMED['C15'] = dict(design='5 (C15), 2', note='trusted: MIRSE MIR semantics + std models; real InsertEdits/ReplaceEdits providers with tables '
+    'keyed by the word\'s own contexts, can_delete/can_swap arbitrary Boolean answers, rand = every stream; oracle = set of all results one '
+    'legal edit may produce; HashSet order fixed (results compared as sets); underflow defect repaired by a fix commit')
 NOT_YET = 'check not built yet in this session (work in progress, see DESIGN.md section 6 for the order)'
 NA = {}
 
